@@ -227,7 +227,8 @@ def write_day(path, case, day, date):
 # --------------------------------------------------------------------------
 # generators (plain JSON descriptions)
 
-DATES = ['2024-09-01', '2024-02-28', '2024-02-29', '2023-12-31', '2019-06-30', '2031-01-09']
+DATES = ['2024-09-01', '2024-02-28', '2024-02-29', '2023-12-31', '2019-06-30', '2031-01-09',
+         '2024-12-30', '2021-01-02']  # the last two: ISO week-year differs from the calendar year
 
 HEADINGS = st.one_of(
     st.sampled_from([0.0, 90.0, 180.0, 270.0, 45.0, 135.0, 225.0, 315.0]),
@@ -381,10 +382,17 @@ class WeatherCheck:
 
         try:
             pt = GroundTrack.Point(Location(longitude=lon, latitude=lat), az_point)
-            if az_param is None:
-                return 'ok', float(self.w.get_ground_speed(time=t, gt_point=pt, altitude=alt, true_airspeed=tas))
-            return 'ok', float(self.w.get_ground_speed(time=t, gt_point=pt, altitude=alt, true_airspeed=tas,
-                                                        azimuth=az_param))
+            before = (pt.location.longitude, pt.location.latitude, pt.azimuth)
+            self.point_mutated = None
+            try:
+                if az_param is None:
+                    return 'ok', float(self.w.get_ground_speed(time=t, gt_point=pt, altitude=alt, true_airspeed=tas))
+                return 'ok', float(self.w.get_ground_speed(time=t, gt_point=pt, altitude=alt, true_airspeed=tas,
+                                                            azimuth=az_param))
+            finally:
+                after = (pt.location.longitude, pt.location.latitude, pt.azimuth)
+                if after != before:
+                    self.point_mutated = (before, after)  # the point is the caller's (it is reused along a track)
         except ValueError as e:
             return 'refused', e
         except Exception as e:  # noqa: BLE001
@@ -519,6 +527,12 @@ class WeatherCheck:
         st_, got = self.call(t, r['lat'], r['lon'], az_point, r['alt'], tas, az_param)
         where = f"{r['latc']}/{r['lonc']}"
         ctx.label('pos.' + where, 'via.' + q['via'], 'field.' + ftype)
+        if getattr(self, 'point_mutated', None):
+            b, a = self.point_mutated
+            _fail(ctx, 'argument.mutated', 'mismatch', WHERE, 'gt_point',
+                  f'get_ground_speed changed the ground-track point it was given: {b} -> {a} (explicit azimuth {az_param!r}); '
+                  f'the next call with the same point and no explicit azimuth would use the wrong heading')
+            return
         qtxt = (f"get_ground_speed(time={t}, point=({r['lon']!r}, {r['lat']!r}, az={az_point!r}), altitude={r['alt']!r}, "
                 f"tas={tas!r}, azimuth={az_param!r}) on {ftype} field, time_axis={case['time_axis']}, day {day}")
         if st_ == 'refused':
